@@ -48,7 +48,7 @@ pub struct TrieNode<V> {
 /// (so a router that wants to capture them can splice them into a rewrite
 /// template). `Regexp` carries both the matched bytes and the regex itself
 /// so the caller can re-run `Regex::captures` to pull explicit groups.
-#[derive(Debug)]
+#[derive(Clone, Debug)]
 pub enum TrieSubMatch<'a, 'b> {
     Wildcard(&'a [u8]),
     Regexp(&'a [u8], &'b Regex),
@@ -435,8 +435,17 @@ impl<V: Debug + Clone> TrieNode<V> {
             "a dotted split must place the separator at the head of the suffix",
         );
 
-        match self.children.get(suffix) {
-            Some(child) => child.lookup_with_path(prefix, accept_wildcard, trace),
+        // An alternative that matches this label but dead-ends further down
+        // (an exact child or a regex subtree holding only longer / other
+        // hosts) must not hide the next one: a frontend that does not cover
+        // the host never changes its route. Precedence is unchanged: exact
+        // label, then wildcard, then the regexes.
+        match self
+            .children
+            .get(suffix)
+            .and_then(|child| child.lookup_with_path(prefix, accept_wildcard, trace.clone()))
+        {
+            Some(found) => Some(found),
             None => {
                 if prefix.is_empty() && self.wildcard.is_some() && accept_wildcard {
                     let segment = if !suffix.is_empty() && suffix[0] == b'.' {
@@ -454,9 +463,13 @@ impl<V: Debug + Clone> TrieNode<V> {
                             suffix
                         };
                         if regexp.is_match(segment) {
-                            let mut next = trace;
+                            let mut next = trace.clone();
                             next.push(TrieSubMatch::Regexp(segment, regexp));
-                            return child.lookup_with_path(prefix, accept_wildcard, next);
+                            if let Some(found) =
+                                child.lookup_with_path(prefix, accept_wildcard, next)
+                            {
+                                return Some(found);
+                            }
                         }
                     }
                     None
@@ -488,8 +501,14 @@ impl<V: Debug + Clone> TrieNode<V> {
             "the suffix the trie matches children against must be non-empty",
         );
 
-        match self.children.get(suffix) {
-            Some(child) => child.lookup(prefix, accept_wildcard),
+        // same fall-through as `lookup_with_path`: an alternative that
+        // dead-ends further down does not hide the next one
+        match self
+            .children
+            .get(suffix)
+            .and_then(|child| child.lookup(prefix, accept_wildcard))
+        {
+            Some(found) => Some(found),
             None => {
                 //println!("no child found, testing wildcard and regexps");
 
@@ -509,7 +528,9 @@ impl<V: Debug + Clone> TrieNode<V> {
 
                         if regexp.is_match(suffix) {
                             //println!("matched");
-                            return child.lookup(prefix, accept_wildcard);
+                            if let Some(found) = child.lookup(prefix, accept_wildcard) {
+                                return Some(found);
+                            }
                         }
                     }
 
